@@ -55,6 +55,13 @@ Theorem C15_copy_cstr_reserve_spec : forall cap s,
 Proof. exact copy_cstr_reserve_spec. Qed.
 Print Assumptions C15_copy_cstr_reserve_spec.
 
+(* ... and the kept prefix is the LONGEST one possible: every character boundary of the text that leaves
+   room for the terminator lies inside it (nothing that would still fit is dropped) *)
+Theorem C15_copy_cstr_reserve_maximal : forall cap s j,
+  is_char_boundary s j = true -> (j <= cap - 1)%nat -> (j <= length s)%nat -> (j <= copy_len true cap s)%nat.
+Proof. exact copy_len_max. Qed.
+Print Assumptions C15_copy_cstr_reserve_maximal.
+
 (* The code as it is now (facts re-read from capi/src/io.rs, public.rs): every one of the six static
    buffers, for EVERY valid text: NUL-terminated within its capacity, valid UTF-8, a prefix of the text
    cut on a character boundary, and equal to the heap variant's text whenever |s| < cap. *)
@@ -95,6 +102,19 @@ Proof.
   vm_compute. repeat split; intro H; discriminate H.
 Qed.
 Print Assumptions C15_bounds.
+
+(* Over ALL call sequences on the code as it is now: whenever the texts the editor supplies are valid
+   UTF-8 without U+0000, EVERY string handed to the caller - heap results, every static buffer after
+   every *_static call (including the iterator variants, which serve texts captured earlier), the
+   buffers filled by chewing_userphrase_get - is NUL-terminated valid UTF-8 within its capacity. *)
+Theorem C15_strings_wellformed : forall fb ops,
+  forallb op_texts_okb ops = true -> Forall (res_ok cfg_current) (run cfg_current (init fb) ops).
+Proof.
+  apply strings_wellformed. split; [reflexivity|]. split.
+  - intros b. destruct b; vm_compute; intro H; discriminate H.
+  - vm_compute. reflexivity.
+Qed.
+Print Assumptions C15_strings_wellformed.
 
 (* ---------------- iterator lifetimes ---------------- *)
 
